@@ -58,13 +58,13 @@ def main():
     hb = os.environ.get("VERIF_HB") or vlib.harness_bin(); drv = os.path.join(vlib.BUILD, "ocaml", "driver")
     rc, out = vlib.sh([hb, "gen", a.prop, "--seed", str(a.seed), "--n", str(a.n)], timeout=600)
     cases = vlib.split_cases(out)
-    res = vlib.run_sharded("%s run %s" % (hb, a.prop), cases, shards=8, cwd=vlib.BUILD)
+    res = vlib.run_sharded("%s run %s" % (hb, a.prop), cases, shards=6, cwd=vlib.BUILD)
     ran = []
     for rc, o, e in res:
         if rc != 0: print("run shard failed", rc, (e or "")[-500:])
         ran += vlib.split_cases(o)
     if a.keep: open(a.keep, "w").write("".join(ran))
-    res = vlib.run_sharded("%s %s" % (drv, a.prop), ran, shards=8)
+    res = vlib.run_sharded("%s %s" % (drv, a.prop), ran, shards=6)
     ndiff = 0; shown = 0
     for rc, o, e in res:
         if rc != 0: print("driver failed", rc, (e or "")[-500:])
